@@ -11,10 +11,13 @@ for s in $seeds; do
   patch=$d/patch.diff; [ -f $d/patch_rebased.diff ] && patch=$d/patch_rebased.diff
   git -C $wt checkout -q -- . ; 
   if ! git -C $wt apply $patch 2>/dev/null; then echo "$s: PATCH-DOES-NOT-APPLY"; continue; fi
-  out=$(cd $snap && VERIF_REPO=$wt ./check $prop 2>&1)
-  n=$(echo "$out" | grep -c "^VIOLATION property=$prop")
-  first=$(echo "$out" | grep -A1 "^VIOLATION" | sed -n 2p | cut -c1-160)
-  rc=$(echo "$out" | grep -c MACHINERY)
-  echo "$s: violations=$n machinery=$rc :: $first"
+  props=$prop; [ -f $d/checks ] && props=$(cat $d/checks)
+  for pr in $props; do
+    out=$(cd $snap && VERIF_REPO=$wt ./check $pr 2>&1)
+    n=$(echo "$out" | grep -c "^VIOLATION property=$pr")
+    first=$(echo "$out" | grep -A1 "^VIOLATION" | sed -n 2p | cut -c1-160)
+    rc=$(echo "$out" | grep -c MACHINERY)
+    echo "$s: check=$pr violations=$n machinery=$rc :: $first"
+  done
 done
 git -C $wt checkout -q -- . ; git -C /repo worktree remove --force $wt; git -C /verif worktree remove --force $snap
